@@ -866,11 +866,16 @@ func joinConds(conds []string) string {
 	return " WHERE " + s
 }
 
-// featItems returns extra result columns from item features.
-func (rc *rctx) featItems() (items []string, modes []int) {
+// featItems returns extra result columns from item features. early selects the
+// window-function items, which are placed before the calls (their ORDER BY is
+// then walked before the calls are).
+func (rc *rctx) featItems(early bool) (items []string, modes []int) {
 	for _, tag := range rc.sp.Feats {
 		f := featByTag[tag]
 		if f == nil || f.item == "" || !featApplies(f, rc.sp) {
+			continue
+		}
+		if strings.Contains(f.item, " OVER ") != early {
 			continue
 		}
 		items = append(items, f.item)
@@ -930,6 +935,9 @@ func (rc *rctx) selectStmt(out *rendered) string {
 	if sp.has("join-using") {
 		// id is ambiguous under a plain join; USING(n)... keep t-qualified
 	}
+	ei, em := rc.featItems(true)
+	items = append(items, ei...)
+	modes = append(modes, em...)
 	for _, c := range rc.callsAt("item") {
 		x, m := rc.out(c)
 		items = append(items, x)
@@ -969,7 +977,7 @@ func (rc *rctx) selectStmt(out *rendered) string {
 		items = append(items, "CASE WHEN "+rc.cond(c)+" THEN 'y' ELSE 'n' END")
 		modes = append(modes, mExact)
 	}
-	fi, fm := rc.featItems()
+	fi, fm := rc.featItems(false)
 	items = append(items, fi...)
 	modes = append(modes, fm...)
 	jo := rc.callsAt("joinon")
@@ -1128,7 +1136,7 @@ func (rc *rctx) returning(out *rendered, tab string) string {
 		modes = append(modes, m)
 	}
 	if tab == "t" {
-		fi, fm := rc.featItems()
+		fi, fm := rc.featItems(false)
 		items = append(items, fi...)
 		modes = append(modes, fm...)
 	}
